@@ -186,8 +186,12 @@ type rejKind struct {
 }
 
 var rejKindsTA = []rejKind{
-	{"unparsable-available-cpuset", func(c *vhConfig, _ *vfkit.Topo) { c.TA.AvailableResources = polcfg.Constraints{polcfg.CPU: "cpuset:0-x"} }},
-	{"unparsable-reserved-cpuset", func(c *vhConfig, _ *vfkit.Topo) { c.TA.ReservedResources = polcfg.Constraints{polcfg.CPU: "cpuset:foo"} }},
+	{"unparsable-available-cpuset", func(c *vhConfig, _ *vfkit.Topo) {
+		c.TA.AvailableResources = polcfg.Constraints{polcfg.CPU: "cpuset:0-x"}
+	}},
+	{"unparsable-reserved-cpuset", func(c *vhConfig, _ *vfkit.Topo) {
+		c.TA.ReservedResources = polcfg.Constraints{polcfg.CPU: "cpuset:foo"}
+	}},
 	{"available-as-quantity", func(c *vhConfig, _ *vfkit.Topo) { c.TA.AvailableResources = polcfg.Constraints{polcfg.CPU: "4"} }},
 	{"missing-reservation", func(c *vhConfig, _ *vfkit.Topo) { c.TA.ReservedResources = polcfg.Constraints{} }},
 	{"reserved-outside-available", func(c *vhConfig, topo *vfkit.Topo) {
@@ -206,8 +210,12 @@ var rejKindsTA = []rejKind{
 }
 
 var rejKindsBln = []rejKind{
-	{"unparsable-available-cpuset", func(c *vhConfig, _ *vfkit.Topo) { c.Balloons.AvailableResources = polcfg.Constraints{polcfg.CPU: "cpuset:0-x"} }},
-	{"unparsable-reserved-cpuset", func(c *vhConfig, _ *vfkit.Topo) { c.Balloons.ReservedResources = polcfg.Constraints{polcfg.CPU: "cpuset:foo"} }},
+	{"unparsable-available-cpuset", func(c *vhConfig, _ *vfkit.Topo) {
+		c.Balloons.AvailableResources = polcfg.Constraints{polcfg.CPU: "cpuset:0-x"}
+	}},
+	{"unparsable-reserved-cpuset", func(c *vhConfig, _ *vfkit.Topo) {
+		c.Balloons.ReservedResources = polcfg.Constraints{polcfg.CPU: "cpuset:foo"}
+	}},
 	{"available-as-quantity", func(c *vhConfig, _ *vfkit.Topo) { c.Balloons.AvailableResources = polcfg.Constraints{polcfg.CPU: "4"} }},
 	{"reserved-outside-available", func(c *vhConfig, topo *vfkit.Topo) {
 		on := topo.OnlineCPUs().Sorted()
@@ -229,10 +237,10 @@ var rejKindsBln = []rejKind{
 }
 
 type c13TwinCase struct {
-	Case    *hcCase   `json:"case"`
-	Pos     int       `json:"pos"`
-	Kind    string    `json:"kind"`
-	BadCfg  *vhConfig `json:"bad_config"`
+	Case   *hcCase   `json:"case"`
+	Pos    int       `json:"pos"`
+	Kind   string    `json:"kind"`
+	BadCfg *vhConfig `json:"bad_config"`
 }
 
 // traceOf runs a case and returns, per executed step index (of the case's ops),
